@@ -285,7 +285,8 @@ def gen_request(r, want_head=None):
     elif k < 9:
         body = r.bytes(r.choice([1, 1, 2, r.range(3, 300)]))
     else:
-        body = r.bytes(r.choice([4095, 4096, 4097, 10000]))
+        # sizes at and next to powers of two (a threshold for "small" bodies would sit there)
+        body = r.bytes(r.choice([4095, 4096, 4097, 10000, 255, 256, 257, 511, 512, 513, 1023, 1024, 1025, 2047, 2048, 2049, 8192]))
     return method, path, hdrs, body
 
 
